@@ -40,6 +40,7 @@ ASSUMPTIONS = [
 @st.composite
 def nc_case(draw):
     c = draw(gen.normalised_counts_case(min_patches=2, max_patches=7, exact=True))
+    gen.scale_weights(c, draw(st.sampled_from(gen.WEIGHT_SCALES)))
     if draw(st.integers(0, 39)) == 0:
         # hundreds of patches, in compact form (see gen.expand_counts)
         c = {"binning": c["binning"], "npatch": draw(st.sampled_from([127, 128, 129, 181, 182, 183, 255, 256, 257, 300])), "auto": c["auto"], "expand": draw(st.integers(0, 2**32 - 1))}
@@ -105,6 +106,9 @@ def run_nc(case):
 def cf_case(draw):
     c = draw(gen.corrfunc_case(min_patches=2, max_patches=7, exact=True, max_bins=4))
     c["prior"] = draw(st.sampled_from([None, None, "sample", "get_array"]))  # earlier read-only use of the same object
+    f = draw(st.sampled_from(gen.WEIGHT_SCALES))
+    for k in ["dd"] + list(c["present"]):
+        gen.scale_weights(c[k], f)
     c["via"] = draw(st.sampled_from(gen.PROVENANCE))
     return c
 
